@@ -509,6 +509,23 @@ void do_canvas(std::ostream &out, world &w, toks &t)
         w.canvases[id] = std::make_unique<canvas>(*w.canvases.at(t.num()));
         return;
     }
+    if (op == "assign")
+    {
+        // copy assignment to an existing canvas (possibly from itself)
+        auto &src = *w.canvases.at(t.num());
+        *w.canvases.at(id) = src;
+        w.held.erase(id);
+        return;
+    }
+    if (op == "move")
+    {
+        // move construction; the source is not looked at again
+        long const from = t.num();
+        w.canvases[id] = std::make_unique<canvas>(std::move(*w.canvases.at(from)));
+        w.canvases.erase(from);
+        w.held.erase(from);
+        return;
+    }
     auto &c = *w.canvases.at(id);
     if (op == "hold")
     {
@@ -830,6 +847,14 @@ void do_string(std::ostream &out, world &w, toks &t)
         else w.strings[id] = tstr({v[0], v[1], v[2]});
     }
     else if (op == "copy") { w.strings[id] = w.strings.at(t.num()); }
+    else if (op == "assign") { auto &src = w.strings.at(t.num()); w.strings.at(id) = src; }
+    else if (op == "move")
+    {
+        long const from = t.num();
+        tstr moved(std::move(w.strings.at(from)));
+        w.strings.erase(from);
+        w.strings[id] = std::move(moved);
+    }
     else if (op == "appendelem") { w.strings.at(id) += mk_elem(t); }
     else if (op == "append") { long o = t.num(); w.strings.at(id) += w.strings.at(o); }
     else if (op == "plus") { long a = t.num(), b = t.num(); w.strings[id] = w.strings.at(a) + w.strings.at(b); }
